@@ -66,13 +66,15 @@ Proof.
 Qed.
 
 Lemma closed_form_wsymm f w size a :
-  (forall n, 0 <= n <= IZR (size - 1) -> wevalR f n (IZR (size - 1)) a = w n (IZR (size - 1))) ->
+  (forall n, 1 <= IZR (size - 1) -> 0 <= n <= IZR (size - 1) ->
+             wevalR f n (IZR (size - 1)) a = w n (IZR (size - 1))) ->
   winR tmpl_wsymm f size a = doc_wsymm w size.
 Proof.
   intro H. unfold doc_wsymm. destruct (size =? 1)%Z eqn:E.
   - apply Z.eqb_eq in E. subst. apply winR_wsymm_1.
   - apply Z.eqb_neq in E. rewrite winR_wsymm by exact E. apply map_ext_in. intros z Hz.
-    apply H. apply IZR_in_range in Hz. rewrite minus_IZR. lra.
+    pose proof (proj1 (In_zrange z size) Hz) as Hr.
+    apply H; [apply IZR_le; lia|]. apply IZR_in_range in Hz. rewrite minus_IZR. lra.
 Qed.
 
 (* ------------------------------------------------------------------ range [0,1] *)
@@ -149,12 +151,15 @@ Proof.
 Qed.
 
 Lemma all01_doc_wsymm w size :
-  (forall n, 0 <= n <= IZR (size - 1) -> 0 <= w n (IZR (size - 1)) <= 1) -> all01 (doc_wsymm w size).
+  (forall n, 1 <= IZR (size - 1) -> 0 <= n <= IZR (size - 1) -> 0 <= w n (IZR (size - 1)) <= 1) ->
+  all01 (doc_wsymm w size).
 Proof.
-  intro H. unfold all01, doc_wsymm. destruct (size =? 1)%Z.
+  intro H. unfold all01, doc_wsymm. destruct (size =? 1)%Z eqn:E.
   - repeat constructor; lra.
-  - apply Forall_forall. intros x Hx.
-    apply in_map_iff in Hx as (z & <- & Hz). apply H. apply IZR_in_range in Hz. rewrite minus_IZR. lra.
+  - apply Z.eqb_neq in E. apply Forall_forall. intros x Hx.
+    apply in_map_iff in Hx as (z & <- & Hz).
+    pose proof (proj1 (In_zrange z size) Hz) as Hr.
+    apply H; [apply IZR_le; lia|]. apply IZR_in_range in Hz. rewrite minus_IZR. lra.
 Qed.
 
 (* ------------------------------------------------------------------ symmetry *)
@@ -258,7 +263,7 @@ Lemma cos_closed_form size a :
   winR tmpl_window f_cos size a = doc_window (doc_cos a) size /\
   winR tmpl_wsymm f_cos size a = doc_wsymm (doc_cos a) size.
 Proof.
-  split; [apply closed_form_window|apply closed_form_wsymm]; intros n Hn; apply cos_pt; lra.
+  split; [apply closed_form_window|apply closed_form_wsymm]; intros; apply cos_pt; lra.
 Qed.
 
 (* range: every sample of the periodic window (and of the symmetric one) lies in [0,1] *)
@@ -277,13 +282,13 @@ Proof. rewrite rect_closed_form. apply all01_doc_window; intros; apply rect_01. 
 Lemma bartlett_range01 size a : all01 (winR tmpl_window f_bartlett size a) /\ all01 (winR tmpl_wsymm f_bartlett size a).
 Proof.
   destruct (bartlett_closed_form size a) as [-> ->].
-  split; [apply all01_doc_window|apply all01_doc_wsymm]; intros n Hn; apply bartlett_01; lra.
+  split; [apply all01_doc_window|apply all01_doc_wsymm]; intros; apply bartlett_01; lra.
 Qed.
 Lemma triangular_range01 size a :
   all01 (winR tmpl_window f_triangular size a) /\ all01 (winR tmpl_wsymm f_triangular size a).
 Proof.
   destruct (triangular_closed_form size a) as [-> ->].
-  split; [apply all01_doc_window|apply all01_doc_wsymm]; intros n Hn; apply triangular_01; lra.
+  split; [apply all01_doc_window|apply all01_doc_wsymm]; intros; apply triangular_01; lra.
 Qed.
 Lemma blackman_range01 size a : -1 / 4 <= a <= 1 / 4 ->
   all01 (winR tmpl_window f_blackman size a) /\ all01 (winR tmpl_wsymm f_blackman size a).
@@ -295,7 +300,7 @@ Lemma cos_range01 size a : 0 <= a ->
   all01 (winR tmpl_window f_cos size a) /\ all01 (winR tmpl_wsymm f_cos size a).
 Proof.
   intro Ha. destruct (cos_closed_form size a) as [-> ->].
-  split; [apply all01_doc_window|apply all01_doc_wsymm]; intros n Hn; apply cos_01; lra.
+  split; [apply all01_doc_window|apply all01_doc_wsymm]; intros; apply cos_01; lra.
 Qed.
 
 (* symmetry of the symmetric windows: the list equals its reverse *)
